@@ -160,7 +160,7 @@ def run_impl(cp, met, through_drivers=False):
             itf.run_bldfm_single = orig
         if seen is None:
             out.append([-996])
-        elif returned != out[:n] * 2:
+        elif _nan_key(returned) != _nan_key(out[:n] * 2):
             out.append([-995])
         # the command-line driver (cli.cmd_run): one single run per tower and per step, in time order
         if cli_steps(raw, cfg) != [(cfg.towers[0].name, i) for i in range(n)]:
@@ -197,7 +197,7 @@ def derived_disagreements(cfg, out):
         try:
             met2 = dataclasses.replace(prev.met, **vals)
             cfg2 = dataclasses.replace(prev, met=met2)
-            if _steps_of(cfg2.met) != out:
+            if _nan_key(_steps_of(cfg2.met)) != _nan_key(out):
                 extra.append([-993])
         except Exception:
             extra.append([-992])
@@ -206,7 +206,7 @@ def derived_disagreements(cfg, out):
             _ = met3.n_timesteps
             for k, v in vals.items():
                 setattr(met3, k, copy.deepcopy(v))
-            if _steps_of(met3) != out:
+            if _nan_key(_steps_of(met3)) != _nan_key(out):
                 extra.append([-991])
         except Exception:
             extra.append([-990])
@@ -407,15 +407,36 @@ def classify(met, got, want):
     return "get_step:wrong-selection"
 
 
+def _nan_key(x):
+    """structural copy in which NaN compares equal to NaN"""
+    if isinstance(x, float) and x != x:
+        return "nan"
+    if isinstance(x, (list, tuple)):
+        return [_nan_key(v) for v in x]
+    return x
+
+
+def nan_forcings():
+    """entries are opaque to the met series logic: a NaN (a gap marker of flux-tower exports) is an entry like any other -
+    one step per list entry, entry i in step i"""
+    nan = float("nan")
+    return [
+        {"ustar": [101, nan, 103, 104], "mol": 200, "wind_speed": 300, "wind_dir": [401, 402, 403, 404], "timestamps": [900, 901, 902, 903]},
+        {"ustar": 100, "mol": [201, 202, nan], "wind_speed": [301, nan, 303], "wind_dir": 400},
+        {"mol": 200, "wind_speed": [nan, nan], "wind_dir": [nan, nan], "z0": 77, "timestamps": [900, 901]},
+        {"ustar": [nan], "mol": 200, "wind_speed": [301, 302], "wind_dir": 400},
+    ]
+
+
 def oracle(ctx, hints):
     cp = _impl()
     found = {}
-    pool = [h["met"] for h in hints if h and "met" in h] + [build_case(c) for c in space(ctx)]
+    pool = [h["met"] for h in hints if h and "met" in h] + nan_forcings() + [build_case(c) for c in space(ctx)]
     last = None
     for met in pool:
         got = run_impl(cp, met, through_drivers=True)
         want = spec_outcome(met)
-        if got != want:
+        if _nan_key(got) != _nan_key(want):
             sig = classify(met, got, want)
             size = sum(len(v) if isinstance(v, list) else 1 for v in met.values())
             if sig not in found or size < found[sig][0]:
